@@ -1,14 +1,25 @@
 (* C09 — the consumers of the live trust set: Resolver.verifyRootKeys / hasTrustAnchors / the CD=0 query for the
    root DNSKEY RRset (Model.v: verify_root, resolve_root).  What "validation fails closed" and "never published as
    a trust anchor again" mean to a validating query. *)
-From Sdns Require Import Common.Base Gen.C09 C09.Model C09.Proofs_Maps C09.Proofs_Rev C09.Proofs_Step
+From Sdns Require Import Common.Base Common.GoList Gen.C09 C09.Model C09.Proofs_Maps C09.Proofs_Rev C09.Proofs_Step
   C09.Proofs_Prov C09.Proofs_Thm C09.Proofs_Hist C09.Proofs_Live.
 Open Scope N_scope.
 
 (* translator ties: the flags value verifyRootKeys demands, the gate in answer(), the definition of hasTrustAnchors *)
 Lemma gen_root_consumers :
-  go_root_key_flags = 257 /\ length go_answer_gate = 1%nat /\ length go_has_trust_anchors = 1%nat.
+  go_root_key_flags = 257 /\ length go_answer_gate = 1%nat /\
+  length go_authority_gate = 1%nat /\ length go_delegation_gate = 1%nat.
 Proof. repeat split; reflexivity. Qed.
+
+(* Resolver.hasTrustAnchors, TRANSLATED from the source (srcgen purefunc with dns.RR as a sum type; RLock / RUnlock are
+   no-ops: one thread's view): it is the model's has_trust_anchors on the live set, whatever the records are read as *)
+Lemma gen_hasTrustAnchors (abs : I_RR -> key) (r : T_Resolver) :
+  go_Resolver_hasTrustAnchors r = has_trust_anchors (map abs (T_Resolver_rootKeys r)).
+Proof.
+  unfold go_Resolver_hasTrustAnchors, has_trust_anchors, go_len.
+  destruct (T_Resolver_rootKeys r) as [|x l]; [reflexivity|].
+  cbn [map is_nil negb length]. apply Z.ltb_lt. lia.
+Qed.
 
 Section Root.
 Variable tag : key -> N.
@@ -77,6 +88,30 @@ Proof.
     - exact (proj1 (unreadable_store_fails_closed_lemma tag live cfg d now fe fl H)).
     - exact (proj1 (dual_write_failure_fails_closed_lemma tag live cfg d now fe fl Ht Hs Hr)). }
   rewrite E. split; reflexivity.
+Qed.
+
+(* ... and every other validating query (NXDOMAIN / NODATA through authority(), referrals through
+   validateDelegation()) is refused at its gate *)
+Lemma fail_closed_refuses_every_query_lemma live cfg d now fe fl :
+  (f_tread fl <> TROk \/ f_sread fl = true) \/
+  (f_twrite fl = true /\ f_swrite fl = true /\ r_revoked (autota tag live cfg d now fe fl) <> []) ->
+  gate (r_live (autota tag live cfg d now fe fl)) = Some RUnavailable /\
+  has_trust_anchors (r_live (autota tag live cfg d now fe fl)) = false.
+Proof.
+  intros H.
+  assert (E : r_live (autota tag live cfg d now fe fl) = []).
+  { destruct H as [H|(Ht & Hs & Hr)].
+    - exact (proj1 (unreadable_store_fails_closed_lemma tag live cfg d now fe fl H)).
+    - exact (proj1 (dual_write_failure_fails_closed_lemma tag live cfg d now fe fl Ht Hs Hr)). }
+  rewrite E. split; reflexivity.
+Qed.
+
+(* the gate and the root-key query agree on what "no trust anchors" means *)
+Lemma gate_agrees_with_root_query live :
+  (gate live = Some RUnavailable <-> live = []) /\
+  (forall keys sigs, gate live = Some RUnavailable -> resolve_root tag live keys sigs = RUnavailable).
+Proof.
+  unfold gate, has_trust_anchors. destruct live; cbn; split; try split; try congruence; intros; reflexivity.
 Qed.
 
 (* "never published as a trust anchor again", at the consumer: once a run accepted the revocation of material m and
